@@ -120,8 +120,12 @@ def work(job):
     open(p, 'w').write(text[:pos] + new + text[pos + len(old):])
     line = text.count('\n', 0, pos) + 1
     env = dict(os.environ, CARGO_NET_OFFLINE='true')
-    t = subprocess.run(['cargo', 'test', '--offline', '--lib', '--tests', '-q'], cwd=clone, env=env, capture_output=True, text=True)
-    if t.returncode != 0:
+    try:
+        t = subprocess.run(['timeout', '-k', '5', '240', 'cargo', 'test', '--offline', '--lib', '--tests', '-q'], cwd=clone, env=env, capture_output=True, text=True)
+    except Exception:
+        t = None
+    subprocess.run(['pkill', '-f', os.path.join(clone, 'target', 'debug', 'deps')], capture_output=True)
+    if t is None or t.returncode != 0:
         return {'file': rel, 'line': line, 'mutation': desc, 'suite': 'fails or does not compile'}
     res = {}
     for prop in FILE_PROPS[rel]:
